@@ -47,3 +47,27 @@ Example C20_nonvacuous :
   Mesh2D__grid_faces 2 2 = [(0, 3, 4, 1); (1, 4, 5, 2); (3, 6, 7, 4); (4, 7, 8, 5)]%Z /\
   length (Mesh2D__grid_vertices (mkV2 1 1) 2 2 (1#2) (1#4)) = 9%nat.
 Proof. vm_compute. split; reflexivity. Qed.
+
+(* ---- triangulating quad faces: Mesh2D._quad_to_triangles (generated from the source) ------------------------------------------- *)
+From LBG Require Import Base QGeom ListCyc G0_vec G1_shapes G2_inter G3_poly G7_contain G8_curve G12_mesh C01_area C20_quads.
+Open Scope Q_scope.
+Theorem C20_quad_diagonal_is_chosen_after_testing_all_four_corners : forall v0 v1 v2 v3,
+  let s := left v1 v2 v3 in
+  Mesh2D__quad_to_triangles [v0; v1; v2; v3]
+  = if Bool.eqb (left v2 v3 v0) s && Bool.eqb (left v3 v0 v1) s && Bool.eqb (left v0 v1 v2) s
+    then [(0, 1, 2); (2, 3, 0)] else Mesh2D__concave_quad_to_triangles [v0; v1; v2; v3].
+Proof. exact quad_to_triangles_spec. Qed.
+Print Assumptions C20_quad_diagonal_is_chosen_after_testing_all_four_corners.
+
+Theorem C20_fan_triangles_cover_a_convex_quad : forall v0 v1 v2 v3,
+  let s := left v1 v2 v3 in
+  Bool.eqb (left v2 v3 v0) s && Bool.eqb (left v3 v0 v1) s && Bool.eqb (left v0 v1 v2) s = true ->
+  left v0 v1 v2 = s /\ left v2 v3 v0 = s /\
+  turn2 v0 v1 v2 + turn2 v2 v3 v0 == shoelace2 [v0; v1; v2; v3].
+Proof. exact fan_triangles_cover_a_convex_quad. Qed.
+Print Assumptions C20_fan_triangles_cover_a_convex_quad.
+
+(* a dart with its re-entrant corner at position 1 of the face tuple is not split along the diagonal 0-2 *)
+Example C20_dart_reflex_at_position_1 :
+  Mesh2D__quad_to_triangles [mkV2 0 0; mkV2 2 1; mkV2 4 0; mkV2 2 4] = [(1, 2, 3); (3, 0, 1)].
+Proof. vm_compute. reflexivity. Qed.
